@@ -186,6 +186,23 @@ def explore_c17(rng, tier, res, deep=False):
         expect.append(("__outcomes__", q, doc, None))
         sets.append((q, doc, {r for _ch, r in leaves}, False, len(expect) - 1))
         res.count("scripts", len(leaves))
+    # values in which one container OBJECT occurs at several places (a finite JSON value all the same): every script gives
+    # a permitted nodelist of the value
+    _a = {"city": "Oslo", "zip": [1, 2]}
+    _row = [1, {"k": 2}]
+    _e = []
+    for doc, q in (({"home": _a, "work": _a}, "$..city"), ({"home": _a, "work": _a}, "$..zip[0]"), ([_row, _row], "$..[*]"), ({"x": _e, "y": [_e], "z": _e}, "$..*"), ({"p": _a, "q": {"r": _a}}, "$..[?@.city]")):
+        c = env.compile(q)
+        a = real.ast_query(c)
+        leaves, complete = choice_tree(env, c, doc, 300)
+        ed = wire.enc_json(doc)
+        for ch, r in leaves[:: max(1, len(leaves) // 20)]:
+            lines.append(f"nd.find\t{eenv}\t{a}\t{ed}\t{ch.wire()}")
+            expect.append((r, q, doc, ch.wire()))
+        lines.append(f"rfc.outcomes\t{eenv}\t{a}\t{ed}")
+        expect.append(("__outcomes__", q, doc, None))
+        sets.append((q, doc, {r for _ch, r in leaves}, False, len(expect) - 1))
+        res.count("shared-container-objects", len(leaves))
     # descendant segments applied BELOW the root to data nested exactly to the environment's limit (and one less): the
     # bound counts from the node the segment is applied to, so every script completes with a permitted nodelist
     for lim in (2, 3, 4):
